@@ -56,5 +56,24 @@ for nm, l, r in (("i64_i64_rlt256", "i64", "i64"), ("i64_u8", "i64", "u8"), ("u3
         bounds=f"all {l} dividends, divisors 0 < |r| < 256", harness=f"c06a__divmod_exact__{nm}", timeout=300)
 
 
+# -------------------------------------------------------------------------------------------------
+# mirsym obligations
+# -------------------------------------------------------------------------------------------------
+def _mirsym():
+    from .specs import merge as sm
+    add("C05.c/merge", "C05", "mirsym", Q,
+        "merge::<T,C>(l, r, limit) on sorted runs returns the first min(limit,|l|+|r|) rows of the stable sorted merge; ops records the interleaving; no panic for any limit",
+        ["engine::operators::merge::merge", "comparator::<impl Comparator<T> for C>::cmp_eq"],
+        bounds="|l|+|r| <= 4 (quick: 5 shapes) / <= 8 (thorough), all element values, all usize limits; key types i64 asc/desc, u8 (quick) + u16,u32,u64 (thorough)",
+        spec=sm.MergeSpec())
+    add("C05.c/merge_keep", "C05", "mirsym", Q,
+        "merge_keep(ops, l, r) carries any payload column through the interleaving recorded by merge",
+        ["engine::operators::merge_keep::merge_keep"],
+        bounds="every ops string of length <= 3 (quick) / <= 5 (thorough), payload values symbolic", spec=sm.MergeKeepSpec())
+
+
+_mirsym()
+
+
 def obligations_for(prop, tier):
     return [o for o in ALL if o.prop == prop and tier in o.tiers]
